@@ -110,13 +110,49 @@ def lammps_tokens(text, mode, analytic):
 
 
 # ---------------------------------------------------------------------------------------------------
-def richardson(f, r):
-    """independent 4th-order derivative estimate of the energy callable"""
-    h = 1e-3 * max(abs(r), 0.05)
+ORACLE = dict(reference_converged=0, reference_not_converged=0)      # how often the numerical reference could be used (reported in the evidence)
 
-    def d(hh):
-        return (f(r + hh) - f(r - hh)) / (2 * hh)
-    return (4 * d(h / 2) - d(h)) / 3
+
+def ridders(f, r, h0=None, room=None):
+    """Derivative of f at r by Ridders' extrapolation of central differences (Numerical Recipes `dfridr`): a tableau over the stencils
+    h0, h0/1.4, h0/1.4^2, ... returning (estimate, error estimate).  The error estimate is what makes the oracle self-validating: a
+    comparison is only made where the reference has converged, and the tolerance includes the reference's own error.
+    `room`: the stencil never reaches further than this from r (distance to a range / spline boundary)."""
+    con, con2, ntab, safe = 1.4, 1.96, 12, 2.0
+    h = h0 if h0 is not None else 2e-2 * max(abs(r), 0.05)
+    if room is not None:
+        h = min(h, 0.9 * room)
+    if r > 0 and h >= r:
+        h = 0.5 * r                      # forms with a pole at r = 0 are never sampled at or across it
+    a = [[0.0] * ntab for _ in range(ntab)]
+    a[0][0] = (f(r + h) - f(r - h)) / (2 * h)
+    err, ans = float("inf"), a[0][0]
+    for i in range(1, ntab):
+        h /= con
+        a[0][i] = (f(r + h) - f(r - h)) / (2 * h)
+        fac = con2
+        for j in range(1, i + 1):
+            a[j][i] = (a[j - 1][i] * fac - a[j - 1][i - 1]) / (fac - 1.0)
+            fac *= con2
+            errt = max(abs(a[j][i] - a[j - 1][i]), abs(a[j][i] - a[j - 1][i - 1]))
+            if errt <= err:
+                err, ans = errt, a[j][i]
+        if abs(a[i][i] - a[i - 1][i - 1]) >= safe * err:
+            break
+    return ans, err
+
+
+def richardson(f, r, room=None):
+    """independent derivative estimate of the energy callable; None where the reference itself has not converged to 1e-7 relative"""
+    try:
+        ans, err = ridders(f, r, room=room)
+    except (OverflowError, ZeroDivisionError, ValueError):
+        return None
+    if not (err <= 1e-7 * abs(ans) + 1e-11):
+        ORACLE["reference_not_converged"] += 1
+        return None
+    ORACLE["reference_converged"] += 1
+    return ans
 
 
 def real_potential(rng):
@@ -174,7 +210,7 @@ def real_potential(rng):
         """independent derivative of the energy callable; None within the stencil of a range/spline boundary"""
         if any(abs(r - b) < 3e-3 * max(abs(r), 0.05) for b in bounds):
             return None
-        return richardson(f, r)
+        return richardson(f, r, room=min([abs(r - b) for b in bounds], default=None))
     return "%s#%d" % (kind, rng.randint(0, 10 ** 6)), f, dref
 
 
